@@ -79,9 +79,9 @@ func corpus(c *Ctx, max int) []srcFile {
 				rest = append(rest, p)
 			}
 		}
-		if len(extra) > max/2 {
+		if len(extra) > max*3/4 { // the hand-written files come first: they hold the constructs the seed rounds asked for
 			r.Shuffle(len(extra), func(i, j int) { extra[i], extra[j] = extra[j], extra[i] })
-			extra = extra[:max/2]
+			extra = extra[:max*3/4]
 		}
 		keep = append(keep, extra...)
 		r.Shuffle(len(rest), func(i, j int) { rest[i], rest[j] = rest[j], rest[i] })
